@@ -34,12 +34,12 @@ pub fn prop() -> Prop {
         ],
         subs: vec![
             Sub::enumerate("instrument_selftest", instrument_selftest).with_fp(),
-            Sub::tape("primitives", 40, 24_000, 1_200_000, |d, cx| primitives(d, cx, false)).with_fp(),
-            Sub::tape("triangles_polylines", 40, 4_000, 200_000, |d, cx| primitives(d, cx, true)),
+            Sub::tape("primitives", 64, 24_000, 1_200_000, |d, cx| primitives(d, cx, false)).with_fp(),
+            Sub::tape("triangles_polylines", 64, 4_000, 200_000, |d, cx| primitives(d, cx, true)),
             Sub::tape("text", 300, 20_000, 1_000_000, text),
-            Sub::tape("images_buffers", 80, 30_000, 1_500_000, images_buffers),
+            Sub::tape("images_buffers", 120, 30_000, 1_500_000, images_buffers),
             Sub::tape("adapter_stacks", 200, 30_000, 1_500_000, adapter_stacks),
-            Sub::tape("geometry_queries", 30, 40_000, 2_000_000, geometry_queries).with_fp(),
+            Sub::tape("geometry_queries", 48, 40_000, 2_000_000, geometry_queries).with_fp(),
         ],
     }
 }
